@@ -89,7 +89,7 @@ theorem attempt_seg (fuel : Nat) (last : ErrClass) (c : Cli μ ρ) : AttSeg c fu
   induction fuel generalizing last c with
   | zero => exact ⟨0, rfl, by simp, Nat.le_refl _, by simp [AllEmpty, openedFrom_zero], fun _ => rfl⟩
   | succ n ih =>
-    obtain ⟨cur, curEnd, rest, sent, reqs, reach⟩ := c
+    obtain ⟨cur, curEnd, rest, sent, reqs, reach, cancelIs⟩ := c
     cases rest with
     | nil =>
       simp only [attempt]
@@ -112,13 +112,13 @@ theorem attempt_seg (fuel : Nat) (last : ErrClass) (c : Cli μ ρ) : AttSeg c fu
 
 /-- budget facts of one `RecvMsg` -/
 def RecvSeg (watch : Bool) (max : Nat) (c : Cli μ ρ) : Recv μ ρ → Prop
-  | .msg _ c' => ∃ k, c'.reqs.length = c.reqs.length + k ∧ c'.rest = c.rest.drop k ∧ c'.reach = c.reach ∧
+  | .msg _ c' => ∃ k, c'.reqs.length = c.reqs.length + k ∧ c'.rest = c.rest.drop k ∧ (c'.reach = c.reach ∧ c'.cancelIs = c.cancelIs) ∧
       segOk max 0 (openedFrom c.rest k) = true ∧ cnt 0 (openedFrom c.rest k) = 0
   | .fail e c' => ∃ k, c'.reqs.length = c.reqs.length + k ∧ c'.rest = c.rest.drop k ∧
       segOk max 0 (openedFrom c.rest k) = true ∧
       ((e = .eof ∨ e = .unavailable) → watch = true → cnt 0 (openedFrom c.rest k) = max + 1)
 
-theorem recvMsg_seg (watch : Bool) (max : Nat) (cancelled : Bool) (c : Cli μ ρ) (hr : c.reach = false) :
+theorem recvMsg_seg (watch : Bool) (max : Nat) (cancelled : Bool) (c : Cli μ ρ) (hr : Quiet c) :
     RecvSeg watch max c (recvMsg watch max cancelled c) := by
   have zero_fail : ∀ e, (e = ErrClass.eof ∨ e = .unavailable → watch = true → False) →
       RecvSeg watch max c (.fail e c) := by
@@ -129,11 +129,11 @@ theorem recvMsg_seg (watch : Bool) (max : Nat) (cancelled : Bool) (c : Cli μ ρ
   | true =>
     rw [if_pos rfl, recvCancelled_eq watch c hr]
     apply zero_fail
-    cases watch <;> simp
+    cases watch <;> cases h : c.cancelIs <;> simp [cancelErr, h]
   | false =>
     simp only [Bool.false_eq_true, if_false]
     cases hcur : c.cur with
-    | cons m ms => exact ⟨0, rfl, by simp, rfl, by simp [openedFrom_zero, segOk], by simp [openedFrom_zero, cnt]⟩
+    | cons m ms => exact ⟨0, rfl, by simp, ⟨rfl, rfl⟩, by simp [openedFrom_zero, segOk], by simp [openedFrom_zero, cnt]⟩
     | nil =>
       by_cases hh : c.curEnd = .hang
       · simp only [hh, if_true]; apply zero_fail; simp
@@ -152,7 +152,7 @@ theorem recvMsg_seg (watch : Bool) (max : Nat) (cancelled : Bool) (c : Cli μ ρ
             have hE : E.length ≤ max := by
               have := congrArg List.length g4
               simp [openedFrom] at this; omega
-            refine ⟨k, g1, g2, ha.reach, ?_, ?_⟩
+            refine ⟨k, g1, g2, ⟨ha.reach, ha.cancelIs⟩, ?_, ?_⟩
             · rw [g4, segOk_append, segOk_allEmpty max 0 E g5 (by omega)]
               simp [segOk, g6]
             · rw [g4, cnt_append]; simp [cnt, g6]
@@ -168,7 +168,7 @@ theorem recvMsg_seg (watch : Bool) (max : Nat) (cancelled : Bool) (c : Cli μ ρ
 /-- budget facts of a whole run: over all the streams it re-opened there are never more than
 `max + 1` consecutive ones without a message, and when it ends with the stream's own error
 (EOF / status error: not blocked, not cancelled) the last `max + 1` re-opened streams delivered nothing -/
-theorem recvLoop_seg (watch : Bool) (max : Nat) (fuel : Nat) (ca : Option Nat) (c : Cli μ ρ) (hr : c.reach = false) :
+theorem recvLoop_seg (watch : Bool) (max : Nat) (fuel : Nat) (ca : Option Nat) (c : Cli μ ρ) (hr : Quiet c) :
     ∃ k, (recvLoop watch max ca fuel c).final.reqs.length = c.reqs.length + k ∧
       segOk max 0 (openedFrom c.rest k) = true ∧
       (((recvLoop watch max ca fuel c).err = .eof ∨ (recvLoop watch max ca fuel c).err = .unavailable) →
@@ -186,7 +186,7 @@ theorem recvLoop_seg (watch : Bool) (max : Nat) (fuel : Nat) (ca : Option Nat) (
     · rename_i m c' heq
       rw [heq] at h1
       obtain ⟨k, g1, g2, g3, g4, g5⟩ := h1
-      obtain ⟨k', i1, i2, i3⟩ := ih (ca.map (· - 1)) c' (by rw [g3, hr])
+      obtain ⟨k', i1, i2, i3⟩ := ih (ca.map (· - 1)) c' (by unfold Quiet; rw [g3.1, g3.2]; exact hr)
       refine ⟨k + k', by simp only; omega, ?_, ?_⟩
       · rw [openedFrom_add, segOk_append, g4, g5, ← g2, i2]; rfl
       · intro he hw
